@@ -35,6 +35,17 @@ Cyclic == \E k \in Keys : <<k, k>> \in Plus
 Undefined == \E i \in prog : \E b \in i.bases : b \notin Keys
 ValueSet(k) == {d \in Keys : <<d, k>> \in Plus}
 
+\* ---- declarative, second formulation: breadth-first search over "is derived from" ------
+\* (parameterised by the identity set: IdentitiesTrace judges recorded programs of 20-30
+\* identities with it, where the relational closure above would be too slow)
+KeysOf(P) == {i.key : i \in P}
+DerivedFrom(P, S) == {i.key : i \in {j \in P : j.bases \cap S # {}}}
+RECURSIVE Reach(_, _, _)
+Reach(P, frontier, acc) == LET nx == DerivedFrom(P, frontier) \ acc IN IF nx = {} THEN acc ELSE Reach(P, nx, acc \cup nx)
+ValueSetOf(P, k) == Reach(P, {k}, {})                 \* contains k itself exactly when k lies on a cycle
+CyclicOf(P) == \E k \in KeysOf(P) : k \in ValueSetOf(P, k)
+UndefinedOf(P) == \E i \in P : \E b \in i.bases : b \notin KeysOf(P)
+
 \* ---- operational ------------------------------------------------------------------
 \* depth-first closure of the children lists with a visited list
 RECURSIVE AddChildren(_, _, _)
@@ -80,6 +91,9 @@ NotSelf == (Done /\ ~err) => \A k \in Keys : k \notin Rng(values[k])
 Transitive == (Done /\ ~err) => \A x, y \in Keys : y \in Rng(values[x]) => Rng(values[y]) \subseteq Rng(values[x])
 \* the sequence is a function of the schema: the sorted value set, whatever order the dictionary was visited in
 FixedOrder == (Done /\ ~err) => \A k \in Keys : values[k] = SortK(SetToSeq(ValueSet(k)))
+\* the two declarative formulations say the same
+ReachAgrees == pc = "done" => /\ Cyclic = CyclicOf(prog) /\ Undefined = UndefinedOf(prog)
+                              /\ \A k \in Keys : ValueSet(k) = ValueSetOf(prog, k)
 Termination == <>(pc = "done")
 Export == ~Done \/ PrintT(<<"CASE", ToJson([ids |-> prog, err |-> err,
              values |-> IF err THEN {} ELSE {[key |-> k, vals |-> values[k]] : k \in Keys}])>>)
